@@ -76,7 +76,7 @@ async def _run(sc):
                 await asyncio.sleep(0)
             if sc.get("job_raise", {}).get(str(jid)):
                 log.append(("job", "raise", jid, when, now()))
-                raise RuntimeError("job %d fails" % jid)
+                raise (AssertionError() if sc.get("raise_noargs") else RuntimeError("job %d fails" % jid))
             log.append(("job", "end", jid, when, now()))
         return job
 
@@ -90,7 +90,7 @@ async def _run(sc):
                 await asyncio.sleep(0)
             if raises:
                 log.append(("h", "raise", stage, hidx, si, event.eid, S(event.when), now()))
-                raise RuntimeError("handler fails")
+                raise (RuntimeError() if sc.get("raise_noargs") else RuntimeError("handler fails"))
             log.append(("h", "end", stage, hidx, si, event.eid, S(event.when), now()))
         return handler
 
@@ -152,7 +152,7 @@ async def _run(sc):
                 await asyncio.sleep(0)
             if raises:
                 log.append(("h", "raise", stage, k, si, event.eid, S(event.when), now()))
-                raise RuntimeError("sniffer fails")
+                raise (RuntimeError() if sc.get("raise_noargs") else RuntimeError("sniffer fails"))
             log.append(("h", "end", stage, k, si, event.eid, S(event.when), now()))
         return sniffer
     for k, p in enumerate(sc["pre"]):
